@@ -106,6 +106,9 @@ class SymFrac:
         n, d = self._pos()
         return n // d
 
+    def __bool__(self):
+        return bool(lift(self.n) != 0)
+
     def __ceil__(self):
         n, d = self._pos()
         return -((-n) // d)
